@@ -6,7 +6,7 @@
     and of the range coder (RcAbs/RcDec/RcEnc/RcRoundtrip.v): every bit
     sequence, under every context-selection program, with the adaptive
     probabilities, survives encode-then-decode. *)
-From XZ Require Import Base Bcj BcjProofs BcjProofs2 BcjProofs3 Xz VliProofs Bound Lzma RcAbs RcDec RcEnc RcRoundtrip RcCodes LzmaEnc LzmaSym LzmaRun.
+From XZ Require Import Base Bcj BcjInst BcjProofs BcjProofs2 BcjProofs3 BcjProofs4 Xz VliProofs Bound Lzma RcAbs RcDec RcEnc RcRoundtrip RcCodes LzmaEnc LzmaSym LzmaRun.
 Local Open Scope N_scope.
 
 Theorem delta_filter_lossless : forall dist l, bytes_ok l -> delta_decode dist (delta_encode dist l) = l.
@@ -37,6 +37,11 @@ Theorem armthumb_filter_lossless : forall start l, aligned2 (w32 start) -> bytes
   fst (armthumb_code false start (fst (armthumb_code true start l))) = l.
 Proof. exact armthumb_roundtrip. Qed.
 Print Assumptions armthumb_filter_lossless.
+
+Theorem ia64_filter_lossless : forall start l, aligned16 (w32 start) -> bytes_ok l ->
+  fst (ia64_code_g false start (fst (ia64_code_g true start l))) = l.
+Proof. intros start l. unfold ia64_code_g. apply ia64_roundtrip. Qed.
+Print Assumptions ia64_filter_lossless.
 
 Theorem integer_fields_lossless : forall v rest, v <= VLI_MAX -> vli_decode (vli_encode v ++ rest) = Some (v, rest).
 Proof. exact vli_decode_encode. Qed.
